@@ -575,6 +575,19 @@ def has_set(ts, prog=None, seen=None):
     return False
 
 
+def is_plain_json(vj):
+    """Is the encoded value made of None/bool/int/float/str/list/dict only?"""
+    if vj is None or isinstance(vj, (bool, int, str)):
+        return True
+    if isinstance(vj, list) and vj and vj[0] == "f":
+        return True
+    if isinstance(vj, list) and vj and vj[0] == "l":
+        return all(is_plain_json(x) for x in vj[1])
+    if isinstance(vj, list) and vj and vj[0] == "d":
+        return all(is_plain_json(k) and is_plain_json(v) for k, v in vj[1])
+    return False
+
+
 def run_real(fn, P):
     """Run `fn()` on the real library and encode the outcome like the driver does."""
     try:
